@@ -84,6 +84,9 @@ namespace verif::e2 {
         }
     }
 
+    // a harness may install its own site filter (default: `wanted`)
+    inline bool (*g_wanted)(char const*) = nullptr;
+
     inline void perturb()
     {
         if (g_perturb_per_1024 == 0) return;
@@ -105,7 +108,7 @@ namespace verif::e2 {
     inline void sink(int phase, char const* site, void const* obj, std::uint64_t a,
         std::uint64_t b) noexcept
     {
-        if (!g_enabled.load(std::memory_order_relaxed) || !wanted(site)) return;
+        if (!g_enabled.load(std::memory_order_relaxed) || !(g_wanted ? g_wanted(site) : wanted(site))) return;
         int os = os_id();
         if (phase == 0)
         {
